@@ -157,10 +157,10 @@ func c02Surfaces(w *World, n *ServerNode, devs []*Device) {
 	for half := 0; half < 2; half++ {
 		ads, st := n.GetStats(n.Model.Offset+uint32(half)*2016, false)
 		if st != 200 {
-			w.Fail("C02.machine", "stats", "live week %d not served: %d", half, st)
+			w.Fail(w.Prop+".surface", "stats", "live week %d (offset %d) not served: %d %s", half, n.Model.Offset+uint32(half)*2016, st, n.LastBody)
 		}
 		if err := CompareWeek(n.Model.LiveWeek(half), ads, n.Key.Pub); err != nil {
-			w.Fail("C02.machine", "stats", "%v", err)
+			w.Fail(w.Prop+".surface", "stats", "%v", err)
 		}
 	}
 	for _, d := range devs {
@@ -168,7 +168,7 @@ func c02Surfaces(w *World, n *ServerNode, devs []*Device) {
 		for i := 0; i < 4032; i++ {
 			want := n.Model.Devices[d.ID].Slots[n.Model.Offset+uint32(i)] != nil
 			if bits[i] != want {
-				w.Fail("C02.machine", "sync-bitfield", "device %d slot index %d: bit %v, model has record %v", d.ID, i, bits[i], want)
+				w.Fail(w.Prop+".surface", "sync-bitfield", "device %d slot index %d: bit %v, model has record %v", d.ID, i, bits[i], want)
 			}
 		}
 	}
